@@ -430,6 +430,11 @@ def main():
         except Infra as e:
             print("INFRASTRUCTURE ERROR (not a verdict on the property):", e)
             rc = 2
+        except Exception as e:  # anything else that went wrong in the orchestrator itself
+            import traceback
+            print("INFRASTRUCTURE ERROR (not a verdict on the property): %s: %s" % (type(e).__name__, e))
+            traceback.print_exc()
+            rc = 2
     finally:
         shutil.rmtree(tmp, ignore_errors=True)
     sys.exit(rc)
